@@ -320,6 +320,9 @@ static void run_c07(void)
                         for (fam = 0; fam < (tier_thorough() ? 4 : 2); ++fam)
                             for (ip = 0; ip < 2; ++ip)
                                 c07_case_g(&kc[ki], be, nblk, dir, fam, ip);
+                /* every count up to nine batches (an unrolled or pipelined loop shows from its 4th..8th iteration on), one family each */
+                for (nblk = 3 * maxP + 2; nblk <= 9 * maxP; ++nblk)
+                    for (dir = 0; dir < (c == CK_MANTIS ? 1 : 2); ++dir) c07_case_g(&kc[ki], be, nblk, dir, 1 + (nblk & 1), (nblk >> 1) & 1);
                 for (dir = 0; dir < (c == CK_MANTIS ? 1 : 2); ++dir) c07_sweep(&kc[ki], be, dir);
                 {   /* larger counts: many batch iterations plus a remainder */
                     static const int big[] = {31, 32, 33, 63, 64, 65, 127, 128, 129, 255, 256, 257, 1025, 4097, 8193};   /* the last two cross 2^16 bytes */
